@@ -36,10 +36,15 @@ def ncf2wind(ncffile, outpath, tflag='TFLAG'):
         t = np.array(t // 100, ndmin=1).astype('>f')
         d = np.array(d, ndmin=1).astype('>i')
         d = (d % (d // 100000 * 100000)).astype('>i')
-        lstag = ncffile.LSTAGGER
-        buf = np.array([12], dtype='>i').tobytes()
-        outfile.write(buf + t.tobytes() + d.tobytes() +
-                      lstag.tobytes() + buf)
+        lstag = np.array(getattr(ncffile, 'LSTAGGER', 0), ndmin=1)
+        if lstag.dtype.kind == 'f' and np.isnan(lstag).all():
+            # files without a stagger flag have a two-word time header
+            buf = np.array([8], dtype='>i').tobytes()
+            outfile.write(buf + t.tobytes() + d.tobytes() + buf)
+        else:
+            buf = np.array([12], dtype='>i').tobytes()
+            outfile.write(buf + t.tobytes() + d.tobytes() +
+                          lstag.astype('>i').tobytes() + buf)
         for zi in range(nzcl):
             for varkey in varkeys:
                 vals = ncffile.variables[varkey][di, zi].astype('>f')
